@@ -111,6 +111,9 @@ for nm, fn, muts, memmut in (
 inst("clear","DataSet<DATA>::clear()",min_obligations=10,
   mutants=[{"name":"ff","slice":"DataSet_clear.inc","find":"firstfree = -themax - 1;","replace":"firstfree = -themax;"}])
 u["instances"]=[i for i in u["instances"] if i["name"]!="clear_mem"]
+EXP={"add_mem":140,"create_mem":120,"removeKey":90,"remove1":65,"removeNums":65,"removePerm":62,"remove1_mem":47,"add":41,"create":35,"removeKey_mem":35,"removeNums_mem":35}
+for i in u["instances"]:
+    if i["name"] in EXP: i["expected_s"]=EXP[i["name"]]
 for i in u["instances"]:
     if i["name"].endswith("_mem") and i["name"][:-4] in ("remove1","removeKey","removePerm","removeNums"):
         i["defines"].pop("EXACT_ALLOC",None); i["defines"]["EXACT_CONST"]=""
